@@ -349,6 +349,26 @@ class ParityTM(Parity):
             if last is not None and last['k'] == 'ReturnStmt' and n.get('else', -1) < 0:
                 self.ev(n['cond'])
                 return              # an early return: its outputs are those of another function, decided there
+            # `if (signbit(v)) s = -1;` after `s = 1`: the statement form of signbit(v) ? -1 : 1
+            sb = [f.nodes[j] for j in f.walk(n['cond']) if (f.nodes[j].get('callee') or {}).get('name') == 'signbit']
+            if len(sb) == 1 and sb[0].get('args') and n.get('else', -1) < 0 and t >= 0:
+                body = tn
+                stmts = list(body['ch']) if body['k'] == 'CompoundStmt' else [t]
+                targets = []
+                for st in stmts:
+                    m = f.nodes[f.strip(st)]
+                    if m['k'] == 'BinaryOperator' and m.get('op') == '=' and f.nodes[f.strip(m['ch'][0])]['k'] == 'DeclRefExpr':
+                        rn = f.nodes[f.strip_casts(m['ch'][1])]
+                        if 'cv' in rn or (rn['k'] == 'UnaryOperator' and rn.get('op') == '-'):
+                            targets.append(f.nodes[f.strip(m['ch'][0])]['d'])
+                            continue
+                    targets = None
+                    break
+                if targets:
+                    p = Parity.ev(self, sb[0]['args'][0])
+                    for d in targets:
+                        self.env[d] = O if p == O else (E if p == E else T)
+                    return
             cn = f.nodes[f.strip_casts(n['cond'])]
             if cn['k'] == 'BinaryOperator' and cn.get('op') == '==' and n.get('else', -1) < 0:
                 a, b = f.nodes[f.strip_casts(cn['ch'][0])], f.nodes[f.strip_casts(cn['ch'][1])]
@@ -358,9 +378,14 @@ class ParityTM(Parity):
 
     def assign(self, n):
         f = self.fn
+        ln = f.nodes[f.strip(n['ch'][0])]
         if n['op'] == '*=':
-            ln = f.nodes[f.strip(n['ch'][0])]
             if ln['k'] == 'DeclRefExpr' and self.ev(n['ch'][0]) == O and self.ev(n['ch'][1]) == O:
+                self.folded.add(ln['d'])
+        elif n['op'] == '=' and ln['k'] == 'DeclRefExpr' and self.env.get(ln['d']) == O:
+            # v = sign * v  (or v * sign)
+            uses = [j for j in f.walk(n['ch'][1]) if f.nodes[j]['k'] == 'DeclRefExpr' and f.nodes[j].get('d') == ln['d']]
+            if uses and self.ev(n['ch'][1]) == E:
                 self.folded.add(ln['d'])
         return Parity.assign(self, n)
 
